@@ -47,7 +47,7 @@ def events_protocol(c):
     cp = os.path.join(c.work, "corpus.json")
     json.dump(corpus_mod.collect(), open(cp, "w"))
     ev = os.path.join(c.work, "evtrace.ndjson")
-    nm, nr = (12, 12) if c.quick else (150, 150)
+    nm, nr = (12, 12) if c.quick else (40, 40)
     p = run_harness(["evtrace-record", c.seed, cp, nm, nr, 60, ev], timeout=3000)
     if p.returncode != 0:
         c.tool_error("evtrace-record failed: " + p.stderr[-1500:])
